@@ -653,13 +653,14 @@ MANIFEST_ENTRY = {
              'body of the final loop of zernike_nm_seq (= translated body of zernike_nm, for any sin/cos/sqrt).  MODELLED AND COMPARED: all 22 '
              'one-index *_seq vs a Python loop over the scalar function, ROW BY ROW at 1e-10 of the row, for all 255 ascending subsets of {0..7}, '
              'all subsets of moving windows {k..k+4} up to order 39, random gapped lists to order 40, shapes (), (5,), (3,4), (4,4), '
-             '(len(ns),3), (2,3,4), coordinate dtypes float64/int64/int32/float32/complex128, order lists as list/tuple/ndarray/range/generator, '
+             '(len(ns),3), (2,3,4), coordinate dtypes float64/int64/int32/float32/complex128, order lists as list/tuple/ndarray/range/generator/iter()/map() for EVERY *_seq (pair lists included), '
              'pure_call (arguments not modified, second call equal); Lean sweep on Float and exactly on Rat; pair lists (both signs, shared |m|, '
              'repeats, norm True/False, int/float32 coordinates) for Zernike / Zernike-der / 2D-Q / XY with independent oracles (x^m y^n on '
              'meshgrids with the default flag, 2D-Q azimuthal convention).  NOT COVERED / not tied by translation: jacobi_der_seq, Qbfs_seq, '
              'laguerre_der_seq, legendre_der_seq, zernike_nm_der_seq, Q2d_seq, xy_seq table-building loops and the table extents of '
-             'zernike_nm_seq (hand model + differential test only); integer coordinates in the *_der sweeps (handled under C09); generators as '
-             '`ns` for cheby2/4 (np.asarray(ns)); non-ascending lists and python-scalar x (outside the property).'),
+             'zernike_nm_seq (hand model + differential test only); integer coordinates in the *_der sweeps (handled under C09); non-ascending '
+             'lists and python-scalar x (outside the property).  Translator scope: calls to same-module helpers whose body is a single return '
+             'are inlined symbolically before translation; pair loops may be written `for n, m in nms` or `for k, (n, m) in enumerate(nms)`.'),
     'note': ('Trusted: Lean kernel + propext/Classical.choice/Quot.sound; tools/gen_c08.py (statement translation; symbolic shape reading of '
              'np.ones/np.squeeze/reshape/newaxis; dtype expressions x.dtype / np.result_type(x, 1.0) / config.precision); NumPy broadcasting = its '
              'shape rule; copy-vs-view of out[k] = v and in-place products on shared table rows are tested (norm=False, +-m pairs), not modelled.'),
